@@ -218,7 +218,7 @@ def run(rep: vk.Report):
                 except (IndexError, ser.Unsupported):
                     pass
             nx = x.size
-            op = r.choice(["getitem", "slice", "binop", "rbinop", "neg", "sum", "dot", "dot_matvec", "matmul", "rmatmul", "norm",
+            op = r.choice(["getitem", "slice", "binop", "rbinop", "neg", "sum", "dot", "dot_windows", "dot_matvec", "matmul", "rmatmul", "norm",
                            "quad", "m_getitem", "m_row", "m_col", "m_sub", "T", "diagonal", "trace", "m_binop", "m_rbinop",
                            "m_neg", "m_sum", "frob", "m_matvec", "radd"])
             ops_hist[op] = ops_hist.get(op, 0) + 1
@@ -269,6 +269,30 @@ def run(rep: vk.Report):
                     py = attempt(lambda: w.dot(other))
                     if py[0] == "ok":
                         np_ref = (py[1], np.dot(np_values(w, vals), np_values(other, vals)))
+                elif op == "dot_windows":
+                    # two DIFFERENT views of one parent whose generated names and lengths coincide (windows of a row / column, a slice
+                    # and its reversal, strided slices with equal bounds): the product is over the elements, not over the names
+                    cands = []
+                    for vv in pool.vectors:
+                        n_ = vv.size
+                        if n_ >= 2:
+                            cands += [(vv[:], vv[::-1]), (vv[0:n_], vv[::-1]), (vv[0:n_ - 1], vv[1:n_])]
+                        if n_ >= 4:
+                            cands += [(vv[0:4:2], vv[0:4:3])]
+                    for mm in pool.matrices:
+                        if mm.cols >= 3:
+                            cands += [(mm[0, 0:2], mm[0, 1:3]), (mm[mm.rows - 1, 0:mm.cols - 1], mm[mm.rows - 1, 1:mm.cols])]
+                        if mm.rows >= 3:
+                            cands += [(mm[0:2, 0], mm[1:3, 0])]
+                    if not cands:
+                        continue
+                    ua, ub = r.choice(cands)
+                    if r.random() < 0.5:
+                        ua, ub = ub, ua
+                    model = f"v_dot {S.vobj(ua)} {S.vobj(ub)}"
+                    py = attempt(lambda: ua.dot(ub) if r.random() < 0.7 else ua @ ub)
+                    if py[0] == "ok":
+                        np_ref = (py[1], np.dot(np_values(ua, vals), np_values(ub, vals)))
                 elif op == "dot_matvec":
                     y = r.choice([x, x[0:nx], x[::-1], x[::-1], g.view()])
                     rows_ = r.choice([nx, nx, y.size])
@@ -431,7 +455,7 @@ def run(rep: vk.Report):
                                                            "first_result_after_second_call": np.asarray(first).tolist()}}, concrete=True)
                 except (ZeroDivisionError, OverflowError, ValueError, TypeError, KeyError):
                     pass
-            if py[0] == "ok" and op in ("sum", "dot", "dot_matvec", "matmul", "norm", "quad", "trace", "m_sum", "frob", "rmatmul") \
+            if py[0] == "ok" and op in ("sum", "dot", "dot_windows", "dot_matvec", "matmul", "norm", "quad", "trace", "m_sum", "frob", "rmatmul") \
                     and hasattr(py[1], "evaluate") and not hasattr(py[1], "_expressions"):
                 with np.errstate(all="ignore"):
                     v_ = common.fval(py[1].evaluate(vals))
